@@ -57,7 +57,7 @@ func autoDetectPacketSize(r io.Reader) (packetSize int, err error) {
 	// A failed detection consumes the bytes it has examined, so that the next attempt makes progress
 	defer func() {
 		if err != nil {
-			if br, ok := r.(*bufio.Reader); ok {
+			if br, ok := r.(*bufio.Reader); ok && !shouldRewind {
 				br.Discard(l)
 			}
 		}
@@ -102,7 +102,8 @@ func autoDetectPacketSize(r io.Reader) (packetSize int, err error) {
 // but it has handy Peek() method
 // so what we do here is peeking bytes for bufio.Reader and falling back to rewinding/syncing for all other readers
 func peek(r io.Reader, b []byte) (shouldRewind bool, err error) {
-	if br, ok := r.(*bufio.Reader); ok {
+	// A bufio.Reader whose buffer can't hold that many bytes can't be peeked: it is read like any other reader
+	if br, ok := r.(*bufio.Reader); ok && br.Size() >= len(b) {
 		var bs []byte
 		bs, err = br.Peek(len(b))
 		if err == io.EOF {
